@@ -216,4 +216,16 @@ CHECKS = {
         level_note="Constants were measured with go1.26.8 on linux/amd64 on the repaired tree; a different Go runtime could shift allocation sizes by small factors (margin 4x). Pretty-printing is outside the guarantee and not measured.",
         assumptions=["d is the nesting depth reported by the independent reference parser (1 for DHCPv4)", "TotalAlloc is cumulative and unaffected by GC, which stays enabled"],
     ),
+    "C12": dict(
+        title="Retransmission follows the configured schedule exactly",
+        stages=[dict(name="sched", shards={"quick": 8, "thorough": 16}, timeout={"quick": 900, "thorough": 3600})],
+        rule="full grid, both clients (real nclient4/nclient6 over a scripted PacketConn inside testing/synctest bubbles): T in {1ms,10ms,250ms,5s} (+ {3ns,7ms,100ms,1s,64s} thorough) x n in {-1,0,1..6} x request size "
+             "variants x 3 destinations x caller context with/without a far deadline x {silence | response accepted in try k < n at offset {start, middle, last ns} of that try}. Shape = the scenario tuple; non-trivial iff n != 1 or a response is accepted.",
+        technique="virtual-time execution (testing/synctest) of the real clients against a scripted PacketConn that records (virtual instant, destination, bytes) of every WriteTo; exact-instant oracle",
+        level_text="With no acceptable response: exactly n transmissions at offsets T*(2^k-1), each byte-identical to request.ToBytes() taken before the call, to the requested destination, and the no-response error at exactly "
+                   "T*(2^n-1); n = -1: the first 10 transmissions on schedule, then cancellation yields ctx.Err(); a response accepted in try k returns at that very instant and no transmission follows during the next 4*T*2^n.",
+        level_note="Instants are exact because time is virtual (synctest); a blocked goroutine left in the bubble or a deadlock fails the scenario. Trusts testing/synctest of go1.26.8.",
+        assumptions=["the scripted conn delivers a datagram only when the receive loop is blocked in ReadFrom, as a socket does"],
+        exhaustive_note="the whole configuration grid is enumerated on every run",
+    ),
 }
